@@ -14,7 +14,9 @@ EXHAUSTIVE = True
 EXHAUSTIVE_SCOPE = ('{Namespace, AsyncNamespace, ClientNamespace, '
                     'AsyncClientNamespace} x every helper found by '
                     'introspection x every subset of its optional parameters '
-                    'x {all-keyword, maximal positional prefix}, canonical '
+                    'x {all-keyword, maximal positional prefix by the helper\'s own '
+                    'signature, maximal positional prefix by the underlying '
+                    'method\'s signature}, canonical '
                     'distinct values')
 RULE = ('The namespace object is registered with a recorder whose methods '
         'have the real signatures of the current Server/Client classes '
@@ -87,7 +89,7 @@ def cells():
                 req, opt = params(socketio, nscls, h)
                 for r in range(len(opt) + 1):
                     for sub in itertools.combinations(opt, r):
-                        for style in ('kw', 'pos'):
+                        for style in ('kw', 'pos', 'tpos'):
                             out.append({'nscls': nscls, 'helper': h,
                                         'given': list(sub), 'style': style})
         _cells['all'] = out
@@ -185,6 +187,22 @@ def check_case(case):
         for p in given:
             if p not in prefix:
                 kw[p] = vals[p]
+    elif case['style'] == 'tpos':
+        # positional in the order of the underlying method's parameters: the
+        # helper must mean the same thing by the same position (pinned
+        # exception: ClientNamespace.send has a vestigial room parameter)
+        if (nscls_name, helper) == ('ClientNamespace', 'send'):
+            kw = {p: vals[p] for p in given}
+        else:
+            ts = inspect.signature(getattr(target, helper))
+            prefix = []
+            for tp in list(ts.parameters.values())[1 + len(req):]:
+                if tp.name in given:
+                    prefix.append(tp.name)
+                else:
+                    break
+            pos += [vals[p] for p in prefix]
+            kw = {p: vals[p] for p in given if p not in prefix}
     else:
         kw = {p: vals[p] for p in given}
     try:
